@@ -106,7 +106,7 @@ class C12(HistProp):
     trusted_base = BASE_TRUST + HEAP_TRUST
     rule = ('operation sequences on every container kind (definite/indefinite array and map, chunked string): exhaustive sequences of length <= 3 (maps / chunked strings <= 6 in thorough) '
             'over push, set i, replace i, get i with i in 0..size+2, add-pair, add-chunk, definite capacities 0..4 (0..8 thorough); 3000 (6000 thorough) insertions into '
-            'each growing container with the reallocation count checked at every step; a refused growth reallocation at sizes 0,1,2,4,8 (insertion fails, container intact and still usable); container-biased random histories; compared step by step with a '
+            'each growing container with the reallocation count checked at every step; growth runs of 1 .. 100000 (10^6 thorough) insertions per kind with the capacity after every insertion digested and the reallocations counted; a refused growth reallocation at sizes 0,1,2,4,8 (insertion fails, container intact and still usable); container-biased random histories; compared step by step with a '
             'Python list model and with the Lean heap model; non-trivial = any container operation; distinct by (operation, result line)')
 
     def histories(self, tier, rng):
@@ -121,6 +121,37 @@ class C12(HistProp):
         for i in range(400 if th else 40):
             hs.append(hist.history(rng, 120, profile='containers'))
         return hs
+
+    # ---- long growth runs (the geometric-growth clause at sizes where a linear policy would show): one line per run
+    def growruns(self, tier):
+        ns = [1, 2, 3, 5, 9, 1000, 8192, 8193, 20000, 100000] + ([1000000] if tier == 'thorough' else [])
+        return ['GROWRUN %s %d' % (k, n) for k in 'ambs' for n in ns]
+
+    def corr_lines(self, tier, rng):
+        return self.growruns(tier) + super().corr_lines(tier, rng)
+
+    def oracle(self, tier, ctx):
+        fails = super().oracle(tier, ctx)
+        lines = self.growruns(tier)
+        out, rc, err = ctx.run_c(lines)
+        for l, o in zip(lines, out):
+            ctx.count(l, o); ctx.bump('GROWRUN')
+            n = int(l.split()[2]); cap = 0; reqs = 0; h = 1469598103934665603
+            for i in range(n):
+                if i >= cap: cap = 1 if cap == 0 else 2 * cap; reqs += 1
+                h = ((h ^ cap) * 1099511628211) % 2 ** 64
+            exp = 'ok size=%d cap=%d reqs=%d digest=%016x' % (n, cap, reqs, h)
+            if o != exp:
+                fails.append({'input': l, 'expected': exp + '  (doubling: at most log2(n)+1 reallocations)', 'observed': o,
+                              'why': 'n insertions into a growing container did not follow geometric growth (capacity after every insertion / number of reallocations)'})
+        return fails[:20]
+
+    def replay(self, ctx, rp):
+        l = rp['failure']['input']
+        if l.startswith('GROWRUN'):
+            o, rc, _ = ctx.run_c([l])
+            return [dict(rp['failure'], observed=o[0] if o else 'abort')] if rc != 0 or not o or not rp['failure']['expected'].startswith(o[0]) else []
+        return super().replay(ctx, rp)
 
 
 PROP = C12()
